@@ -296,7 +296,7 @@ def run_case(case, rec):
             return
         invariant(g, type(g), names, types, label + ' (decoded)', rec, case)
         rec.count('roundtrip_checked')
-    if st in ('valid', 'roundtrip') or rec.evaluations % 4 == 0:
+    if rec.evaluations % 6 == 0:
         # the other trips a frame object makes: copy, deepcopy, pickle with
         # every protocol (what multiprocessing / a task queue does).  Where
         # the trip succeeds, the copy is a frame like any other: the mapping
